@@ -503,4 +503,109 @@ def streamLimit {α : Type} (offset limit : Nat) (pulls : List (List α)) : List
   let all := limitLoop (limit + offset) pages []
   if all.length ≤ offset then [] else (all.take (min (offset + limit) all.length)).drop offset
 
+
+/-! ### 9. stream: `getDisjointParts` (banyand/stream/snapshot.go, copy in banyand/trace/snapshot.go) and the
+    time-ordered scan of one segment (`blockScanner.scan` + `tsResult`) -/
+
+/-- a part as far as grouping is concerned: id and metadata time range -/
+structure TRange where
+  id : Nat
+  lo : Int
+  hi : Int
+deriving DecidableEq, Repr, Inhabited
+
+section Groups
+variable {α : Type}
+
+def insertByLo (rg : α → Int × Int) (p : α) : List α → List α
+  | [] => [p]
+  | q :: qs => if (rg p).1 ≤ (rg q).1 then p :: q :: qs else q :: insertByLo rg p qs
+
+/-- `sort.Slice(parts, MinTimestamp <)` (any sort; ties do not influence the groups) -/
+def sortByLo (rg : α → Int × Int) (l : List α) : List α := l.foldr (insertByLo rg) []
+
+/-- the grouping loop: a part joins the current group iff it starts at or before the group's boundary
+    (= the largest max timestamp in the group) -/
+def groupParts (rg : α → Int × Int) : List α → List α → Int → List (List α)
+  | [], cur, _ => if cur.isEmpty then [] else [cur]
+  | p :: ps, [], _ => groupParts rg ps [p] (rg p).2
+  | p :: ps, c :: cur, b =>
+    if (rg p).1 ≤ b then groupParts rg ps (c :: cur ++ [p]) (if (rg p).2 > b then (rg p).2 else b)
+    else (c :: cur) :: groupParts rg ps [p] (rg p).2
+
+/-- `getDisjointParts(parts, asc)`: groups in time order, reversed for descending scans
+    (`rg` = the part's metadata (MinTimestamp, MaxTimestamp)) -/
+def disjointGroups (rg : α → Int × Int) (parts : List α) (asc : Bool) : List (List α) :=
+  let gs := groupParts rg (sortByLo rg parts) [] 0
+  if asc then gs else gs.reverse
+
+end Groups
+
+def TRange.rg (r : TRange) : Int × Int := (r.lo, r.hi)
+
+def intLe (asc : Bool) (x y : Int) : Bool := if asc then decide (x ≤ y) else decide (y ≤ x)
+
+def insertInt (asc : Bool) (x : Int) : List Int → List Int
+  | [] => [x]
+  | y :: ys => if intLe asc x y then x :: y :: ys else y :: insertInt asc x ys
+
+def sortInts (asc : Bool) (l : List Int) : List Int := l.foldr (insertInt asc) []
+
+/-- a stream mem part: its rows (series, timestamp); metadata range = min/max timestamp of all rows -/
+structure SPart where
+  id : Nat
+  rows : List (Nat × Int)
+deriving Repr, Inhabited
+
+def SPart.rg (p : SPart) : Int × Int :=
+  let ts := p.rows.map (·.2)
+  (ts.foldl min (ts.head?.getD 0), ts.foldl max (ts.head?.getD 0))
+
+/-- The time-ordered scan of one segment: parts overlapping the time range are grouped by `getDisjointParts`;
+    groups are scanned one after another, **always from the front of the group list** (this models the proposed fix F91;
+    see `streamTsQuery_legacy`); inside a group all matching rows are heap-merged by timestamp
+    (`blockCursorHeap.merge`, abstracted as "sorted" – tied by correspondence only). -/
+def streamScan (legacy : Bool) (parts : List SPart) (sids : List Nat) (minTS maxTS : Int) (asc : Bool) : List Int :=
+  let sel := parts.filter fun p => !(decide (maxTS < p.rg.1) || decide (minTS > p.rg.2))
+  let gs := disjointGroups SPart.rg sel asc
+  let order := if legacy && !asc then gs.reverse else gs
+  order.flatMap fun g =>
+    sortInts asc (g.flatMap fun p =>
+      (p.rows.filter fun r => sids.contains r.1 && decide (minTS ≤ r.2) && decide (r.2 ≤ maxTS)).map (·.2))
+
+def streamTsQuery := streamScan false
+/-- `blockScanner.scan` as found: for descending scans it takes the *last* group of a list that `getDisjointParts`
+    has already reversed, i.e. the earliest group first (finding F91). -/
+def streamTsQuery_legacy := streamScan true
+
+/-! ### 10. measure index-mode ordered query across segments (`buildIndexQueryResult`, `segResult.remove`,
+    `segResultHeap`, `indexSortResult.Pull`) -/
+
+def insertKV (desc : Bool) (x : String × Int) : List (String × Int) → List (String × Int)
+  | [] => [x]
+  | y :: ys => if intLe (!desc) x.2 y.2 then x :: y :: ys else y :: insertKV desc x ys
+
+/-- `SearchWithoutSeries` of one segment with `Order`: the segment's series sorted by the indexed value -/
+def sortKV (desc : Bool) (l : List (String × Int)) : List (String × Int) := l.foldr (insertKV desc) []
+
+/-- one segment result after `segResult.remove` of every series already delivered by an earlier segment
+    (series, timestamps, versions, fields **and sort value** are removed together); returns the kept entries and
+    the updated series filter -/
+def keepUnseen : List String → List (String × Int) → List (String × Int) × List String
+  | seen, [] => ([], seen)
+  | seen, x :: xs =>
+    if seen.contains x.1 then keepUnseen seen xs
+    else ((x :: (keepUnseen (x.1 :: seen) xs).1), (keepUnseen (x.1 :: seen) xs).2)
+
+/-- the loop over the segments of `buildIndexQueryResult` -/
+def dropSeen : List String → List (List (String × Int)) → List (List (String × Int))
+  | _, [] => []
+  | seen, seg :: rest => (keepUnseen seen seg).1 :: dropSeen (keepUnseen seen seg).2 rest
+
+def kvLt (desc : Bool) (a b : String × Int) : Bool := if desc then decide (a.2 > b.2) else decide (a.2 < b.2)
+
+/-- `indexSortResult.Pull` until nil: k-way merge of the per-segment lists on the sort value -/
+def indexSortQuery (desc : Bool) (segs : List (List (String × Int))) : List (String × Int) :=
+  kmerge (kvLt desc) (dropSeen [] (segs.map (sortKV desc)))
+
 end Banyan.C09
